@@ -40,6 +40,7 @@ struct Env {
     int fail_errno = EIO;             // errno of the injected write failures (EIO, ENOSPC, EINTR, EAGAIN)
     bool stall = false;               // the injected failures are stalls instead: pwrite returns 0 (nothing written, no errno)
     int open_fail_at = -1;            // index of the device open() that fails (EACCES); -2: all
+    int close_fail_at = -1;           // index of the device close() that reports EIO (the descriptor is released all the same, as on Linux)
     int lock_fail_at = -1;            // index of the device flock() that fails (EWOULDBLOCK: somebody else holds the file); -2: all
     int nlocks = 0;
     int nwrites = 0, nopens = 0, ncloses = 0;
@@ -90,6 +91,7 @@ extern "C" int close(int fd)
             return 0; // protect the harness's own descriptors (stdin, foreign files) from the damage
         }
         ENV.owned.erase(fd);
+        if (ENV.close_fail_at >= 0 && ENV.ncloses - 1 == ENV.close_fail_at) { syscall(SYS_close, fd); errno = EIO; return -1; }
     }
     return (int)syscall(SYS_close, fd);
 }
